@@ -731,7 +731,8 @@ def make_statement(kind, name):
             bits[5], bits[6], bits[7] = bits[0] != bits[1], bits[1] and bits[2], bits[3] and not bits[1]
         else:
             bits = [bool(kw.get(f'b{i}', False)) for i in range(8)]
-        frm, st = enum_int(frm, 0, 13), enum_int(st, 0, 1)
+        frm = enum_int(frm, 0, 13)
+        st = enum_int(st, 0, 1) if (kind != 0 or os.environ.get('VERIF_TIER') == 'thorough') else 0
         r = native(_statement_check, bits, frm, st, kind)
         if r == 'skip':
             assume(False)
